@@ -153,3 +153,28 @@ pub fn switch(name: &str) -> bool {
     SWITCHES.lock().unwrap_or_else(|e| e.into_inner())
         .as_ref().map(|set| set.contains(name)).unwrap_or(false)
 }
+
+
+//------------ In-process rsync ----------------------------------------------
+
+/// A replacement for running the rsync command: gets the source module URI
+/// and the destination directory, returns the exit code.
+pub type RsyncHandler = dyn Fn(&str, &std::path::Path) -> i32 + Send + Sync;
+
+static RSYNC: RwLock<Option<Arc<RsyncHandler>>> = RwLock::new(None);
+
+/// Installs or removes the in-process rsync replacement (hook H10).
+pub fn set_rsync_override(handler: Option<Arc<RsyncHandler>>) {
+    *RSYNC.write().unwrap_or_else(|e| e.into_inner()) = handler;
+}
+
+/// Returns whether an in-process rsync replacement is installed.
+pub fn rsync_override_installed() -> bool {
+    RSYNC.read().unwrap_or_else(|e| e.into_inner()).is_some()
+}
+
+/// Runs the in-process rsync replacement if one is installed.
+pub fn rsync_override(source: &str, destination: &std::path::Path) -> Option<i32> {
+    let handler = RSYNC.read().unwrap_or_else(|e| e.into_inner()).clone();
+    handler.map(|handler| handler(source, destination))
+}
